@@ -27,7 +27,7 @@ func (g *G) idPool(adversarial bool) []string {
 			g.W.Excluded["C08-invalid-utf8-export"]++
 		}
 		if !g.W.Opt.Open["C12-nul-aliasing"] {
-			ids = append(ids, "a\x00b", "b\x00c", "\x00", "a\x00")
+			ids = append(ids, "a\x00b", "\x00")
 		} else {
 			g.W.Excluded["C12-nul-aliasing"]++
 		}
@@ -83,14 +83,14 @@ func (g *G) genPnftMsg() (sdk.Msg, string) {
 			Creator: g.addrString("creator-spelling", actor)}, "create-denom"
 	case "update":
 		if formerAct(m.FormerDenomOwner[denom]) {
-		} else if d != nil && g.chance("by-owner", 65) {
+		} else if d != nil && g.chance("by-owner", g.bias("by-owner", 65)) {
 			ownerAct(d.OwnerAddr)
 		}
 		return &pnfttypes.MsgUpdateDenomRequest{Id: denom, Name: pick(g, "name", []string{"", "n2"}), Symbol: pick(g, "sym", []string{"", "S2"}),
 			Description: pick(g, "desc", []string{"", "d2"}), Data: pick(g, "data", []string{"", "x"}), Updater: g.addrString("updater-spelling", actor)}, "update-denom"
 	case "delete":
 		if formerAct(m.FormerDenomOwner[denom]) {
-		} else if d != nil && g.chance("by-owner", 65) {
+		} else if d != nil && g.chance("by-owner", g.bias("by-owner", 65)) {
 			ownerAct(d.OwnerAddr)
 		}
 		if d != nil && len(m.TokensOf(denom)) > 0 && w.Opt.Open["C12-orphan-tokens"] {
@@ -101,13 +101,13 @@ func (g *G) genPnftMsg() (sdk.Msg, string) {
 		return &pnfttypes.MsgDeleteDenomRequest{Id: denom, Remover: g.bech(actor)}, "delete-denom"
 	case "handover":
 		if formerAct(m.FormerDenomOwner[denom]) {
-		} else if d != nil && g.chance("by-owner", 70) {
+		} else if d != nil && g.chance("by-owner", g.bias("by-owner", 70)) {
 			ownerAct(d.OwnerAddr)
 		}
 		return &pnfttypes.MsgTransferDenomRequest{Id: denom, Sender: g.bech(actor), Receiver: receiver()}, "transfer-denom"
 	case "mint":
 		if formerAct(m.FormerDenomOwner[denom]) {
-		} else if d != nil && g.chance("by-owner", 75) {
+		} else if d != nil && g.chance("by-owner", g.bias("by-owner", 75)) {
 			ownerAct(d.OwnerAddr)
 		}
 		id := pick(g, "token-id", ids)
@@ -124,7 +124,7 @@ func (g *G) genPnftMsg() (sdk.Msg, string) {
 		tk = pick(g, "existing-token", toks)
 	}
 	if formerAct(m.FormerTokenOwner[tk]) {
-	} else if t := m.Tokens[tk]; t != nil && g.chance("by-owner", 65) {
+	} else if t := m.Tokens[tk]; t != nil && g.chance("by-owner", g.bias("by-owner", 65)) {
 		ownerAct(t.Owner)
 	}
 	if kind == "transfer" {
